@@ -254,6 +254,17 @@ class Tensor:
         t.requires_grad = False; t.grad = None
         return t
 
+    def __getattr__(self, name):
+        # only reached when the model has no such attribute: a real torch.Tensor attribute that is not modelled is an
+        # engine gap (undecided / bounded fallback), never a verdict on the code; anything else is a genuine AttributeError
+        if not (name.startswith('__') and name.endswith('__')):
+            try:
+                import torch as _rt
+                real = hasattr(_rt.Tensor, name)
+            except Exception:
+                real = False
+            if real: raise EngineGap(f"torch.Tensor.{name} not modelled")
+        raise AttributeError(f"'{type(self).__name__}' object has no attribute '{name}'")
     def __init__(self, *args, **kwargs):
         pass
 
@@ -300,7 +311,7 @@ class Tensor:
     @property
     def is_leaf(self): return True
     @property
-    def data(self): return _mk(self._a, self._k)
+    def data(self): return _cut(self)
     def is_floating_point(self): return self._k == 'f'
     def __len__(self):
         if self._a.ndim == 0: raise TypeError("len() of a 0-d tensor")
@@ -470,8 +481,25 @@ def _inplace(t, r):
     t._a[...] = np.broadcast_to(r._a, t._a.shape)
     return t
 
+CUTS = None      # autograd-cut tracking (Env.no_graph_cut): {marker Poly: detached value} while a plain-autograd segment runs
+def _cut(x):
+    """value of x with the autograd graph cut.  Outside a tracked segment: the value itself.  Inside: the same value, each
+    non-constant entry tagged with a fresh marker carried in Frac.guards (guards are propagated by every arithmetic operation and
+    atom, never by comparisons), so that the entries of the result computed FROM a detached value are known afterwards."""
+    if CUTS is None or x._k != 'f': return _mk(x._a, x._k)
+    from . import algebra as _A
+    out = np.empty(x._a.shape, dtype=object)
+    for idx in np.ndindex(x._a.shape):
+        v = x._a[idx]
+        if isinstance(v, Frac) and not v.is_const():
+            mk_ = _A.CTX.sym(f'cut{len(CUTS)}', aux=True).num
+            CUTS[mk_] = v
+            out[idx] = Frac(v.num, v.den, v.guards | frozenset([mk_]), v.nn)
+        else:
+            out[idx] = v
+    return _mk(out, x._k)
 @api
-def _detach(x): return _mk(x._a, x._k)
+def _detach(x): return _cut(x)
 _detach.__name__ = 'detach'
 @api
 def _clone(x): return _mk(x._a.copy(), x._k)
@@ -1013,6 +1041,11 @@ def repeat(x, *size):
 @api
 def tile(x, dims): return repeat._impl(x, *dims)
 @api
+def repeat_interleave(x, repeats, dim=None, output_size=None):
+    if isinstance(repeats, Tensor): repeats = [_pyint(Tensor.item(_mk(np.array(v, dtype=object)))) for v in repeats._a.reshape(-1)] if repeats._a.ndim else int(repeats)
+    a = x._a.reshape(-1) if dim is None else x._a
+    return _mk(np.repeat(a, repeats, axis=0 if dim is None else dim), x._k)
+@api
 def reshape(x, *shape):
     shape = _shape_args(shape)
     if x._a.size == 0 and -1 in shape:
@@ -1352,7 +1385,7 @@ def _bind():
     g = globals()
     names = '''add sub mul div neg pow sin cos tan exp log sqrt atan arctan asin arcsin acos abs sign nan_to_num square
         reciprocal rsqrt gt ge lt le eq ne logical_not logical_and logical_or all any sum mean prod cumsum max min amax amin
-        argmax argmin clamp clip unsqueeze squeeze expand expand_as repeat tile reshape view view_as flatten ravel transpose
+        argmax argmin clamp clip unsqueeze squeeze expand expand_as repeat repeat_interleave tile reshape view view_as flatten ravel transpose
         swapaxes swapdims permute movedim moveaxis t split chunk unbind select narrow index_select gather take_along_dim flip roll
         diagonal matmul mm bmm mv dot norm det inverse topk sort argsort median std var rad2deg where isnan isinf isfinite floor ceil round floor_divide remainder
         maximum minimum tril triu atan2 cross outer diag trace expm1 log1p vecdot multiply divide true_divide absolute'''.split()
@@ -1391,6 +1424,14 @@ class Function:
     @classmethod
     def apply(cls, *args):
         ctx = _Ctx()
+        global CUTS
+        saved, CUTS = CUTS, None        # a cut inside forward() is invisible to autograd: the backward is hand-written
+        try:
+            return cls._apply(ctx, *args)
+        finally:
+            CUTS = saved
+    @classmethod
+    def _apply(cls, ctx, *args):
         if 'setup_context' in cls.__dict__ or builtins.any('setup_context' in k.__dict__ for k in cls.__mro__[:-2]):
             out = cls.forward(*args)
             cls.setup_context(ctx, args, out)
